@@ -204,3 +204,19 @@ def c12_product_vs_zero(v):
 def c12_contradictory_strict_pair(v):
     r = v['record']
     return r.get('clause', '').startswith('same:') and r.get('hostile') == 'contradiction' and r.get('merged_to_not_equal') is True
+
+
+@predicate
+def c04_de2_inf_cost_undercount(v):
+    r, d = v['record'], v['desc']
+    return (r.get('clause', '').startswith('c04:evaluation counter equals the number of real cost calls') and r.get('solver') == 'de2'
+            and r.get('evalmon_kind') == 'none' and (r.get('inf_returns') or 0) > 0
+            and r.get('expected') - r.get('observed') == r.get('inf_returns'))
+
+
+@predicate
+def c03_powell_history_unconstrained_record(v):
+    r = v['record']
+    bad = r.get('bad_records') or []
+    return (r.get('clause', '').startswith('c03:every solution recorded in the history') and r.get('solver') == 'powell'
+            and bool(bad) and min(bad) >= 1)      # record 0 is the constrained start; the reported solution is judged by its own clause
